@@ -127,22 +127,29 @@ def _migrate_csv_to_rules(csv_file: str, config_dir: str, backup: bool = True) -
         print(f"  {C.GREEN}✓{C.RESET} Created: config/merchants.rules")
         print(f"      Converted {len(csv_rules)} merchant rules to new format")
 
-        # Backup old file
-        if backup and os.path.exists(csv_file):
-            shutil.move(csv_file, csv_file + '.bak')
-            print(f"  {C.GREEN}✓{C.RESET} Backed up: merchant_categories.csv → .bak")
-
-        # Update settings.yaml to reference new file
+        # Update settings.yaml to reference new file. This happens BEFORE the CSV is
+        # moved away: until settings.yaml names merchants.rules the CSV is still what
+        # tally loads, so an interruption or I/O error at any step leaves the budget
+        # classifying with the user's rules. The new content is written to a temp file
+        # and renamed into place so settings.yaml is never seen half-written.
         settings_path = os.path.join(config_dir, 'settings.yaml')
         if os.path.exists(settings_path):
             with open(settings_path, 'r', encoding='utf-8') as f:
                 content = f.read()
             if 'merchants_file:' not in content:
-                with open(settings_path, 'a', encoding='utf-8') as f:
+                tmp_path = settings_path + '.tmp'
+                with open(tmp_path, 'w', encoding='utf-8') as f:
+                    f.write(content)
                     f.write('\n# Merchant rules file (migrated from CSV)\n')
                     f.write('merchants_file: config/merchants.rules\n')
+                os.replace(tmp_path, settings_path)
                 print(f"  {C.GREEN}✓{C.RESET} Updated: config/settings.yaml")
                 print(f"      Added merchants_file: config/merchants.rules")
+
+        # Backup old file (last: everything that replaces it is already in place)
+        if backup and os.path.exists(csv_file):
+            shutil.move(csv_file, csv_file + '.bak')
+            print(f"  {C.GREEN}✓{C.RESET} Backed up: merchant_categories.csv → .bak")
 
         return True
     except Exception as e:
